@@ -1,5 +1,5 @@
 // drv_io: file input/output of the simulator.
-//  RT <tissue> W dir pre seed     write the population with mesh_writer (cell + face file) after `pre` random remeshing
+//  RT <tissue> W dir pre seed [via] write the population with mesh_writer (cell + face file) after `pre` random remeshing
 //                                 operations per cell (unused slots), read the cell file back with mesh_reader;
 //        out: OK | cells after write {type nn {x y z} nf {a b c}} | read back {nn {x y z} nf {k ids}} | types
 //  RD path                        mesh_reader on an arbitrary file: outcome class + summary
@@ -45,7 +45,7 @@ int main(){
         try {
             if (mode == "RT"){
                 tissue_case t = read_tissue(in);
-                expect(in, "W"); std::string dir; int pre; unsigned long seed; in >> dir >> pre >> seed;
+                expect(in, "W"); std::string dir; int pre; unsigned long seed; int via = 0; in >> dir >> pre >> seed; if (!(in >> via)) via = 0;
                 std::filesystem::create_directories(dir);
                 std::vector<cell_ptr> cells = build_cells(t, true);
                 local_mesh_refiner lmr(1e-30, 1e30, false);
@@ -56,7 +56,10 @@ int main(){
                     if (((st >> 20) & 3) != 0 && lmr.can_be_merged(e, c)) lmr.merge_edge(e, c, work); else lmr.split_edge(e, c, work);
                 }
                 for (size_t i = 0; i < cells.size(); i++){ cells[i]->set_id((unsigned)i); cells[i]->set_local_id((unsigned)i); }
-                mesh_writer::write(dir + "/cells.vtk", dir + "/faces.vtk", cells);
+                // via 0: the simulation's path (write); 1, 2: the public single-file entry points, which compact the cells themselves
+                if (via == 1) mesh_writer::write_cell_data_file(dir + "/cells.vtk", cells);
+                else if (via == 2){ std::ofstream f_(dir + "/cells.vtk"); mesh_writer::write_cell_data_file(f_, cells); f_.close(); }
+                else mesh_writer::write(dir + "/cells.vtk", dir + "/faces.vtk", cells);
                 std::cout << "OK |";
                 for (cell_ptr c : cells){
                     std::cout << " " << c->get_cell_type_id() << " " << c->get_node_lst().size();
@@ -65,7 +68,7 @@ int main(){
                     for (const face& f : c->get_face_lst()){ auto [a,b,d] = f.get_node_ids(); std::cout << " " << a << " " << b << " " << d; }
                 }
                 mesh_reader rd_(dir + "/cells.vtk", false);
-                std::vector<mesh> ms = rd_.read(); std::vector<short> tys = rd_.get_cell_types();
+                std::vector<mesh> ms = rd_.read(); std::vector<short> tys; if (via == 0) tys = rd_.get_cell_types();   // the single-file entry points write no data arrays
                 std::cout << " |";
                 for (const mesh& m : ms){
                     std::cout << " " << m.node_pos_lst.size()/3; for (double x : m.node_pos_lst) std::cout << " " << hx(x);
